@@ -277,7 +277,10 @@ func (h *harness) agreement() {
 				firstErr = err
 			}
 			return err == nil
-		}, true, map[string]any{"verificationMethod": vm, "type": doc["type"], "first_error": fmt.Sprint(firstErr)})
+		}, true, map[string]any{"verificationMethod": vm, "type": doc["type"], "document": doc})
+		if firstErr != nil && os.Getenv("C03_DEBUG") != "" {
+			fmt.Printf("DEBUG ld-proof %v: first error %v\n", doc["type"], firstErr)
+		}
 	}
 	r.Extra("harvested_compact_tokens", len(toks))
 	r.Extra("harvested_ld_proofs", len(sigs))
